@@ -57,7 +57,9 @@ def gen(tier, rng, scale):
             elif r < 65:
                 items.append(["A", 100 + rng.below(4), rng.choice([0, 3])])
             elif r < 75:
-                m = rng.choice(["-", 0, 100, 200, 250, 300, 301, 400, 1000, max(0, total_guess), max(0, total_guess - 50), max(0, total_guess - 100)])
+                m = rng.choice(["-", 0, 100, 200, 250, 300, 301, 400, 1000, max(0, total_guess), max(0, total_guess - 50), max(0, total_guess - 100),
+                                # limits from the top of the u64 range ("no limit in practice"), and around 2^63
+                                2**64 - 1, 2**64 - 1 - 10**6, 2**63, 2**63 - 1, 2**63 + 5])
                 items.append(["s", m])
             elif r < 81:
                 items.append(["g", rng.choice(["-", 1, 3, 5, 11, 17, 61])])
